@@ -2,7 +2,7 @@
 from world import amounts, enc_f64, dec_f64, f64_next, enc_dec, dec_dec
 
 ID = "C09"
-LEAN_MODULES = ["QtyModel.Props.C09"]
+LEAN_MODULES = ["QtyModel.Props.C09", "QtyModel.Props.C09Keys"]
 HARNESS_GROUPS = ()
 RULE = ("registry dump (iteration order, names, symbols, prefixes, scales, REF_UNIT, constants) of every type; lookup by "
         "every declared symbol, case-flipped / edited near misses and random strings; lookup by every declared scale, "
@@ -26,6 +26,8 @@ def gen(w, rng, tier):
     ops = []
     for t in w.types:
         ops.append(("reg", f"reg {t['name']}"))
+        for i in range(t["n"]):
+            ops.append(("as_qty", f"asq {t['name']} {i}"))
         syms = [u["symbol"] for u in t["units"]]
         for s in syms:
             ops.append(("fsym:declared", f"fsym {t['name']} {hexs(s)}"))
